@@ -2,7 +2,7 @@
 
 PROP = {
     "pkg": "internal/querylog",
-    "files": ["querylog/c07_model_test.go", "querylog/c07_machine_test.go", "querylog/c07_props_test.go"],
+    "files": ["querylog/c07_model_test.go", "querylog/c07_machine_test.go", "querylog/c07_props_test.go", "querylog/c07_budget_test.go"],
     "level": "exploration",
     "technique": "property-based testing (rapid): a state machine over record / flush / rotate / clear / settings "
                  "change / restart against a reference model of the retained entries; every read goes through the "
@@ -47,7 +47,7 @@ PROP = {
         ("TestVFC07Params", (300, 2000)),
         ("TestVFC07StoredLine", (1500, 15000)),
     ],
-    "plain": ["TestVFC07RegressCursor", "TestVFC07RegressBounds", "TestVFC07RegressEscaped"],
+    "plain": ["TestVFC07RegressCursor", "TestVFC07RegressBounds", "TestVFC07RegressEscaped", "TestVFC07ScanBudget"],
     "shards": (4, 16),
     "workers": (4, 16),
     "timeout": (900, 3600),
